@@ -29,6 +29,12 @@ def main(argv=None):
 	sx.install()
 	from gvsim import engine
 	from gvsim import props
+	# import-time state of the code under test (defaults captured at import, registries) is fixed here, in the
+	# launcher's working directory, and not by whichever run happens to import a module first
+	try:
+		import gambit.cli  # noqa
+	except Exception:
+		pass
 	mod = props.get(args['prop'])
 	prop, tier, seed = args['prop'], args['tier'], args['seed']
 	root = engine.scratch_root()
@@ -40,7 +46,10 @@ def main(argv=None):
 		mod.worker_init(args)
 	try:
 		if args.get('mode') == 'replay':
-			faulthandler.dump_traceback_later(per_run_timeout * 3, exit=True)
+			faulthandler.dump_traceback_later(per_run_timeout * (3 + len(args.get('prefix') or [])), exit=True)
+			for pr in args.get('prefix') or []:
+				# earlier runs of the same worker, regenerated from the seed: only the state they leave behind matters
+				engine.execute(mod.scenario, prop, seed, pr, tier, root=root, rng_run=pr // getattr(mod, 'RUN_GROUP', 1))
 			r = engine.execute(mod.scenario, prop, seed, args['run'], tier, choices=args['choices'], root=root)
 			faulthandler.cancel_dump_traceback_later()
 			out.write(json.dumps(r.to_json(with_events=True, with_choices=True), default=str) + '\n')
